@@ -79,7 +79,7 @@ func c17Files(r *core.Ctx, idx int, big bool) map[string]string {
 }
 
 func runC17(c *core.Ctx) {
-	c.SetRule("faults: every report command shape (31: reg in all variants, bal x3 with/without -s, csv x3, print, summary, report x4, stats, lint with and without findings) x output sink failing from byte offset k: every k in 0..len for reports <= 3000 bytes (exhaustive), and for reports of several bufio buffers k in {0, 1, multiples of 4096 -1/0/+1, len-1, 64 PRNG-chosen offsets}; plus the real binary (incl. gen man/markdown) with stdout = /dev/full, a pipe closed before the first write / at once / after 4 KiB, a regular file opened read-only, a file on a full tmpfs, a file under ulimit -f. Invariants on the counting sink: the sink returned an error to a Write => non-zero exit; exit 0 => the complete report was accepted. Non-trivial = run in which the sink did return an error (counted by the wrapper); distinct = hash(files, argv, k).")
+	c.SetRule("faults: every report command shape (31: reg in all variants, bal x3 with/without -s, csv x3, print, summary, report x4, stats, lint with and without findings) x output sink failing from byte offset k: every k in 0..len for reports <= 3000 bytes (exhaustive), for reports of several bufio buffers and for inputs whose names are longer than one output buffer (4096..9000 bytes) k in {0, 1, multiples of 4096 -1/0/+1, len-1, 64 PRNG-chosen offsets}; plus the real binary (incl. gen man/markdown) with stdout = /dev/full, a pipe closed before the first write / at once / after 4 KiB, a regular file opened read-only, a file on a full tmpfs, a file under ulimit -f. Invariants on the counting sink: the sink returned an error to a Write => non-zero exit; exit 0 => the complete report was accepted. Non-trivial = run in which the sink did return an error (counted by the wrapper); distinct = hash(files, argv, k).")
 	c.Assume("--help/--version are printed by the CLI library and are not reports")
 	pool := newPool(c, c.Procs)
 	if pool == nil {
@@ -97,6 +97,14 @@ func runC17(c *core.Ctx) {
 	for i := 0; i < nsmall; i++ {
 		worlds = append(worlds, c17Files(c, i, false))
 	}
+	// names longer than one output buffer: writes that bypass the buffer
+	long := func(n int, ch string) string { return strings.Repeat(ch, n) }
+	worlds = append(worlds, map[string]string{
+		"food.yaml": "a/b:\n  x: 1\n  " + long(5000, "e") + ": 2\n\n" + long(4096, "r") + ":\n  x: 3\n",
+		"log.yaml":  "2021/01/24:\n  " + long(5000, "u") + ": 1\n  aa: 2\n  " + long(8200, "v") + ": 3\n  a/b: 1\n  " + long(4096, "r") + ": 2\n",
+		"bad.yaml":  "2021/01/24:\n  " + long(6000, "m") + "\n  ok: 1\n  " + long(9000, "n") + ": x\n",
+	})
+	longIdx := len(worlds) - 1
 	worlds = append(worlds, c17Files(c, 1000, true))
 	bigIdx := len(worlds) - 1
 	pre := []string{"--no-color", "-d", "food.yaml", "-l", "log.yaml", "--today", "2021/02/01"}
@@ -114,7 +122,7 @@ func runC17(c *core.Ctx) {
 			}
 			L := len(res.Out)
 			fullOut[[2]int{wi, ci}] = res.Out
-			if wi != bigIdx {
+			if wi != bigIdx && wi != longIdx {
 				if L <= 3000 {
 					exhaustiveCmds++
 					for k := 0; k <= L; k++ {
@@ -159,6 +167,9 @@ func runC17(c *core.Ctx) {
 		files := worlds[j.world]
 		if j.world == bigIdx {
 			files = map[string]string{"note": "large generated files (500 days, 600 recipes), see c17Files"}
+		}
+		if j.world == longIdx {
+			files = map[string]string{"note": "names of 4096, 5000, 6000, 8200 and 9000 bytes (longer than one output buffer), see runC17"}
 		}
 		doc := caseDoc{Files: files, Args: args, Note: fmt.Sprintf("sink fails from byte %d of %d", j.k, j.full),
 			Observed: map[string]any{"exit": res.Exit, "err": res.Err, "accepted": res.Accepted, "sink_errors": res.SinkErrs, "writes": res.Writes, "panic": clip(res.Panic, 1000), "died": clip(res.Died, 1000)}}
